@@ -7,7 +7,7 @@
    between consecutive break opportunities); `av` is the room of the first line of the
    list (avail - text-indent for the first line of the block), `avail` of the others. *)
 From Verif Require Import Layout.LineBreak.
-From Coq Require Import List ZArith QArith Bool.
+From Coq Require Import List ZArith QArith Qabs Bool.
 Import ListNotations.
 Open Scope Z_scope.
 
@@ -137,3 +137,50 @@ Fixpoint EmergencyOnly (ls : list (list (bool * list item))) : Prop :=
 
 (* no emergency break opportunity at all: overflow-wrap: normal *)
 Definition no_eb (items : list item) : Prop := forallb (fun i => negb (is_eb i)) items = true.
+
+(* ---------------------------------------------------------------- inline box extents *)
+
+(* an inline box of a laid-out line that has in-flow children: left / right of its content area
+   (from its own position, margins, borders, paddings and width) and left of its first / right
+   of its last in-flow child (margin boxes).  CSS 2.1 10.3.1 / 9.4.2: the content area of an
+   inline box is exactly what its content takes (the horizontal margins, borders and paddings
+   are respected between the boxes), also after text-align: justify has widened the spaces
+   inside it and before it.  1/64 px of slack for the float arithmetic of justified lines. *)
+Record iboxo := mkIB { ib_cl : Q; ib_cr : Q; ib_kl : Q; ib_kr : Q }.
+
+(* the declarative reading: both ends of the content area are within 1/64 px of the ends of
+   the content *)
+Definition ibox_spans (b : iboxo) : Prop :=
+  (Qabs (ib_cl b - ib_kl b) <= 1 # 64)%Q /\ (Qabs (ib_cr b - ib_kr b) <= 1 # 64)%Q.
+
+Definition near (a b : Q) : bool :=
+  Qle_bool (a - b)%Q (1 # 64)%Q && Qle_bool (b - a)%Q (1 # 64)%Q.
+
+Definition ibox_ok (b : iboxo) : bool :=
+  near (ib_cl b) (ib_kl b) && near (ib_cr b) (ib_kr b).
+
+(* ---------------------------------------------------------------- line boxes and vertical-align *)
+
+(* a laid-out line box (y, height) with the heights CSS 2.1 10.8 / 10.8.1 makes it contain,
+   whatever the vertical-align of the boxes: the line-height of every inline box that has text
+   on the line (the height of an inline non-replaced box is its line-height) and the margin-box
+   height of every atomic inline on it.  "The line box height is the distance between the
+   uppermost box top and the lowermost box bottom", boxes aligned top / bottom (also nested in
+   one another) included: the line is at least as tall as each of them. *)
+Record vline := mkVL { vl_y : Q; vl_h : Q; vl_req : list Q }.
+
+Definition vline_tall (l : vline) : Prop := forall r, In r (vl_req l) -> (r <= vl_h l)%Q.
+
+Fixpoint vstacked (ls : list vline) : Prop :=
+  match ls with
+  | a :: ((b :: _) as r) => (vl_y b == vl_y a + vl_h a)%Q /\ vstacked r
+  | _ => True
+  end.
+
+Definition vline_tall_b (l : vline) : bool := forallb (fun r => Qle_bool r (vl_h l)) (vl_req l).
+
+Fixpoint vstacked_b (ls : list vline) : bool :=
+  match ls with
+  | a :: ((b :: _) as r) => Qeq_bool (vl_y b) (vl_y a + vl_h a)%Q && vstacked_b r
+  | _ => true
+  end.
